@@ -49,6 +49,7 @@ pub fn cmd(sub: &str, args: &[String], w: &mut dyn Write) -> bool {
                     "hostile" => gen_hostile_case(&mut cp, &id, w),
                     "v1" => gen_v1_case(&mut cp, &id, i, w),
                     "bomb" => gen_bomb_case(&mut cp, &id, i, big, w),
+                    "limit" => gen_limit_case(&mut cp, &id, i, w),
                     _ => {
                         eprintln!("unknown codec kind {kind}");
                         std::process::exit(2);
@@ -638,6 +639,33 @@ fn gen_valid_case(p: &mut Prng, id: &str, i: u64, cases: u64, max_states: usize,
         tries += 1;
     }
     observe_valid(id, "valid", &b, w);
+}
+
+/// Machines at the documented size limit: many copies of one state (highly compressible, so the
+/// compressed form stays far below flate2's 32 KiB chunk): the largest count whose encoding
+/// still fits `MAX_DECOMPRESSED_SIZE` (even `i`), and one state more (odd `i`: `serialize`
+/// panics on its own size limit; outside the property's hypothesis, the model must predict it).
+fn gen_limit_case(p: &mut Prng, id: &str, i: u64, w: &mut dyn Write) {
+    let o = VOpts { noise: false, density: 60, rich: 100, long_vec: false };
+    let proto = gen_vstate(p, 1, &o, false);
+    let mk = |k: usize| Machine {
+        allowed_padding_packets: 1,
+        max_padding_frac: 0.5,
+        allowed_blocked_microsec: 1,
+        max_blocking_frac: 0.5,
+        states: vec![proto.clone(); k],
+    };
+    let per = (bincode_of(&mk(2)).len() - bincode_of(&mk(1)).len()).max(16);
+    let mut k = MAX_DECOMPRESSED_SIZE / per + 2;
+    while bincode_of(&mk(k)).len() > MAX_DECOMPRESSED_SIZE {
+        k -= 1;
+    }
+    let k = if i % 2 == 0 { k } else { k + 1 };
+    let m = mk(k);
+    if m.validate().is_err() {
+        return;
+    }
+    observe_valid(id, if i % 2 == 0 { "valid at-limit" } else { "valid over-limit" }, &bincode_of(&m), w);
 }
 
 // ---------------------------------------------------------------------------------------------
